@@ -18,12 +18,12 @@ func selfTest() int {
 	b := NewTB()
 	x := b.Var("x", SReal)
 	s.Reset(false)
-	r, _ := s.Check([]*Term{b.RLt(b.RMul(x, x), b.Rat(ratZero))}, nil)
+	r, _ := s.Check([]*Term{b.RLt(b.RMul(x, x), b.Rat(ratZero))}, nil, true)
 	if r != "unsat" {
 		fmt.Println("selftest: solver gave", r, "for x*x<0")
 		return 1
 	}
-	r, m := s.Check([]*Term{b.Eq(b.RMul(x, b.RatI(3, 1)), b.RatI(1, 1))}, []*Term{x})
+	r, m := s.Check([]*Term{b.Eq(b.RMul(x, b.RatI(3, 1)), b.RatI(1, 1))}, []*Term{x}, false)
 	if r != "sat" || m["x"].Rat == nil || m["x"].Rat.RatString() != "1/3" {
 		fmt.Println("selftest: model parsing failed", r, m)
 		return 1
